@@ -13,6 +13,10 @@ type file struct {
 	child *file
 	path  string
 	docs  []*Document
+
+	// loadPath is the path the file was loaded from; path may later be
+	// rewritten to a symlink's target.
+	loadPath string
 }
 
 func (p *Parser) loadFile(path string, child *file) (*file, error) {
@@ -20,6 +24,8 @@ func (p *Parser) loadFile(path string, child *file) (*file, error) {
 		id:    path,
 		child: child,
 		path:  path,
+
+		loadPath: path,
 	}
 
 	if child != nil {
@@ -88,6 +94,13 @@ func (p *Parser) loadFile(path string, child *file) (*file, error) {
 }
 
 func (p *Parser) loadFileAndParents(path string, child *file) ([]*file, error) {
+	// A file that is (transitively) its own parent would recurse forever.
+	for c := child; c != nil; c = c.child {
+		if c.loadPath == path {
+			return nil, fmt.Errorf("%s: $parent cycle: %w", path, ErrCircularRef)
+		}
+	}
+
 	f, err := p.loadFile(path, child)
 	if err != nil {
 		return nil, err
